@@ -21,7 +21,7 @@ RULE = ("scenario = one faulty flow + 0..3 healthy neighbours; base schedule as 
         "of the faulty flow (quick) / every callback index (thorough); directed: id exhaustion for tcp/dns/udp, late "
         "frames, DnsProxy/UdpProxy socket errors, getpeername errnos at accept, accept() failing with EMFILE/ENFILE/other "
         "errnos at 0/1/7 free descriptor slots (counting os shim); non-trivial = at least one fault fired; distinct = distinct script")
-DRIVER_TARGETS = ['SshuttleModel.Code.Tunnel', 'SshuttleModel.Code.Accept']
+DRIVER_TARGETS = ['SshuttleModel.Code.Tunnel', 'SshuttleModel.Code.Accept', 'SshuttleModel.Code.Alloc']
 DRIVERS = ['Tunnel', 'C08']
 ASSUMPTIONS = [
     "errnos outside the handled set at connect time are re-raised by design (try_connect: 'barf completely') and are "
@@ -46,7 +46,9 @@ MANIFEST = dict(
                 "(C08_reset_at_accept_contained, over the errno set read off ssnet._try_peername on every run), and accept() "
                 "failing with EMFILE / ENFILE ends only the arriving connection for EVERY number of free descriptor slots, zero "
                 "included: the handler's descriptor operations, in the order read off client.onaccept_tcp on every run, never "
-                "need a slot they have not freed and leave the spare descriptor open again (C08_fd_exhaustion_contained). Replayed against the real classes with fault "
+                "need a slot they have not freed and leave the spare descriptor open again (C08_fd_exhaustion_contained); no identifier free "
+                "for a TCP accept, DNS query or new UDP source discards the arrival and leaves the client's tables exactly as they "
+                "were (C08_exhaustion_discards, over the table model C06 keeps in lock-step with the real handlers). Replayed against the real classes with fault "
                 "injection on every run; exhaustion / late-frame / server UDP and DNS proxy faults are driven on the real "
                 "client and server functions."),
     level_note=("Trusted: as C01. UDP/DNS flows are outside the Lean model: their containment is decided on the real code "
